@@ -246,6 +246,78 @@ pub fn run(rep: &mut Report) {
         sweep(rep, &format!("c07.cross[{},EL]", scale_name(which)), elr.len() as u64, |i, out| j_cross(which, elr[i as usize], &m, out));
         sweep(rep, &format!("c07.reverse[{},EL]", scale_name(which)), elr.len() as u64 * 6, |i, out| j_reverse(which, elr[(i / 6) as usize], SRC[(i % 6) as usize], &m, out));
     }
+    // phase anchors (round 8): the instants at which the periodic term itself is special - its zero crossings (the offset is
+    // exactly 32.184 s: a sign, a "-0", a convergence test against an initial zero), its extrema, and the instants at which it
+    // equals a whole number of milliseconds or microseconds (rounding / carry of the offset) - found by bisection on the
+    // reference closed forms, each with offsets from half a second to two hours on both sides; every year 1940-2160 and
+    // every 250th year of the +-10 000 year span
+    {
+        let mut years: Vec<i64> = (-60..=160).collect();
+        years.extend((-40..=40).map(|k| k * 250));
+        if !q {
+            years.extend(-10_000..=10_000);
+        }
+        years.sort();
+        years.dedup();
+        let year_s = 31_557_600.0f64;
+        let mut anchors: Vec<i128> = vec![];
+        for y in &years {
+            for which in 0..2 {
+                let f = |t: f64| if which == 0 { m.et_periodic(t) } else { m.tdb_periodic(t) };
+                let targets: [f64; 7] = [0.0, 1.0e-3, -1.0e-3, 1.0e-6, -1.0e-6, 1.5e-3, -1.5e-3];
+                let t0 = *y as f64 * year_s;
+                for d in 0..366 {
+                    let (a, b) = (t0 + d as f64 * 86_400.0, t0 + (d + 1) as f64 * 86_400.0);
+                    // level crossings
+                    for tg in targets {
+                        let (fa, fb) = (f(a) - tg, f(b) - tg);
+                        if fa == 0.0 || (fa < 0.0) != (fb < 0.0) {
+                            let (mut lo, mut hi) = (a, b);
+                            for _ in 0..50 {
+                                let mid = 0.5 * (lo + hi);
+                                if ((f(mid) - tg) < 0.0) == (fa < 0.0) { lo = mid } else { hi = mid }
+                            }
+                            anchors.push((lo * 1e9) as i128);
+                        }
+                    }
+                    // extrema: sign change of the slope
+                    let g = |t: f64| f(t + 30.0) - f(t - 30.0);
+                    if (g(a) < 0.0) != (g(b) < 0.0) {
+                        let (mut lo, mut hi) = (a, b);
+                        for _ in 0..40 {
+                            let mid = 0.5 * (lo + hi);
+                            if (g(mid) < 0.0) == (g(a) < 0.0) { lo = mid } else { hi = mid }
+                        }
+                        anchors.push((lo * 1e9) as i128);
+                    }
+                }
+            }
+        }
+        anchors.sort();
+        anchors.dedup();
+        let offs: Vec<i128> = [0i128, 500_000_000, 1_500_000_000, 5 * NS_S, 30 * NS_S, 32_184_000_000, 60 * NS_S, 100 * NS_S, 149 * NS_S, 151 * NS_S, 600 * NS_S, 2_900 * NS_S, 3_100 * NS_S, 7_200 * NS_S].iter().flat_map(|o| [*o, -*o]).collect();
+        let (na, no) = (anchors.len() as u64, offs.len() as u64);
+        rep.bound("phase_anchors", format!("{na} instants (zero crossings, extrema, whole ms / us levels of both periodic terms over {} years) x {no} offsets", years.len()));
+        let span_ok = |c: i128| c.abs() <= span;
+        sweep(rep, "c07.forward[phase-anchors]", na * no * 6, |i, out| {
+            let c = anchors[(i / (6 * no)) as usize] + offs[((i / 6) % no) as usize];
+            if span_ok(c) {
+                j_forward(SRC[(i % 6) as usize], J2000_TAI + c - 32_184_000_000, None, &m, out)
+            }
+        });
+        sweep(rep, "c07.reverse[phase-anchors]", na * no * 4, |i, out| {
+            let c = anchors[(i / (4 * no)) as usize] + offs[((i / 4) % no) as usize];
+            if span_ok(c) {
+                j_reverse([TimeScale::ET, TimeScale::TDB][(i % 2) as usize], c, if (i / 2) % 2 == 0 { TimeScale::TAI } else { TimeScale::TT }, &m, out)
+            }
+        });
+        sweep(rep, "c07.cross[phase-anchors]", na * no * 2, |i, out| {
+            let c = anchors[(i / (2 * no)) as usize] + offs[((i / 2) % no) as usize];
+            if span_ok(c) {
+                j_cross([TimeScale::ET, TimeScale::TDB][(i % 2) as usize], c, &m, out)
+            }
+        });
+    }
     sweep(rep, "c07.zero", 2, |i, out| j_zero([TimeScale::ET, TimeScale::TDB][i as usize], out));
     // order independence (depth-2 operation sequences on one thread): forward and reverse conversions at 12 instants
     {
